@@ -1662,9 +1662,20 @@ func rulePool(r *Report) {
 		h.Check(ok, "(*column.Txn).initialize", r.P.Pos(fn.Pos()), "!setup ⇒ index := clone(fill); setup = true", "initialize does not take the selection from the owner's fill list exactly when it is not set up")
 	}
 	byName := func(name, field, elemField string) {
-		fn := r.Anchor(name)
-		if fn == nil {
+		top := r.Anchor(name)
+		if top == nil {
 			return
+		}
+		// the lookup may sit in a helper that is handed the name (columnAt → cacheAt(name))
+		fn := top
+		for _, c := range callsWhere(top, func(_ ssa.Instruction, cc *ssa.CallCommon) bool {
+			sc := cc.StaticCallee()
+			return sc != nil && isHelper(sc) && len(cc.Args) == 2 && sameExpr(cc.Args[1], top.Params[1]) && len(originOf(sc).Params) == 2
+		}) {
+			cc, _, _ := callCommon(c)
+			if g := originOf(cc.StaticCallee()); len(fieldsStoredOn(g, "column.Txn")[field]) >= 1 {
+				fn = g
+			}
 		}
 		// a loop over txn.<field> comparing <elemField> with the name parameter, returning the element on equality
 		cmp := false
